@@ -329,6 +329,43 @@ def _nwt() -> dict[str, object]:
     return {"src": ast.unparse(t), "lean": lean}
 
 
+ST = "vgi_rpc/http/server/_state_token.py"
+
+
+def _age_tests() -> dict[str, object]:
+    """`_open_cursor_token` / `_open_call_token_dated`: the token-age test that rejects a token.
+
+    Recognised: `int(time.time()) - created_at > token_ttl` (reject only tokens OLDER than the ttl) and the range form
+    `not 0 <= int(time.time()) - created_at <= token_ttl` (also rejects a negative age, i.e. a token minted by a worker
+    whose clock is ahead).  Both functions must use the same test.
+    """
+    tree = ast.parse((REPO / ST).read_text())
+    age = "int(time.time()) - created_at"
+    forms = []
+    for fname in ("_open_cursor_token", "_open_call_token_dated"):
+        fn = _func(tree, fname)
+        tests = []
+        for n in ast.walk(fn):
+            if isinstance(n, ast.If) and age in ast.unparse(n.test):
+                t = n.test
+                if isinstance(t, ast.BoolOp) and isinstance(t.op, ast.And) and ast.unparse(t.values[0]) == "token_ttl > 0" and len(t.values) == 2:
+                    t = t.values[1]
+                tests.append(t)
+        if len(tests) != 1:
+            raise Shape(f"{fname}: expected one token-age test, found {len(tests)}")
+        t = tests[0]
+        src = ast.unparse(t)
+        if src == f"{age} > token_ttl":
+            forms.append(("decide (age > (ttl : Int))", src))
+        elif src == f"not 0 <= {age} <= token_ttl":
+            forms.append(("(!(decide (0 ≤ age) && decide (age ≤ (ttl : Int))))", src))
+        else:
+            raise Shape(f"{fname}: token-age test `{src}`")
+    if forms[0] != forms[1]:
+        raise Shape("cursor and call tokens use different age tests: " + " / ".join(f[1] for f in forms))
+    return {"lean": forms[0][0], "src": forms[0][1]}
+
+
 def _strlist(xs: list[str]) -> str:
     return "[" + ", ".join('"' + x + '"' for x in xs) + "]"
 
@@ -337,6 +374,7 @@ def emit() -> dict[str, str]:
     t = _turn()
     k = _token()
     w = _nwt()
+    g = _age_tests()
     lean = f"""namespace VgiVerif.Gen.C11
 
 /-! `_run_http_producer_turn` ({AS}) -/
@@ -370,6 +408,12 @@ def loopOrder : List String := {_strlist(t['events'])}
 /-- after a response has been read: `if {w['src']}: self._finished = True; return (None, None)`.
 `gotData` = a data batch was read from the response, `rows` = its row count -/
 def nwtEndOfStream (gotData : Bool) (rows : Nat) : Bool := {w['lean']}
+
+/-! `_open_cursor_token` / `_open_call_token_dated` ({ST}) -/
+
+/-- with `token_ttl > 0`, a token is refused as expired when `{g['src']}`;
+`age` = the serving worker's clock minus the minting worker's `created_at` (negative when the serving worker's clock is behind) -/
+def tokenRefusedByAge (age : Int) (ttl : Nat) : Bool := {g['lean']}
 
 /-! `_encode_resume_token` / `_decode_resume_token` ({CL}) -/
 
